@@ -5,7 +5,7 @@ import json, os, re, sys
 HERE = os.path.dirname(os.path.abspath(__file__))
 sys.path.insert(0, os.path.dirname(HERE))
 from rules.common import *
-import flow, panics
+import flow, panics, slices
 
 A = []
 
@@ -58,6 +58,9 @@ def main():
                     e = {'key': k, 'variant': hit[0], 'where': '%s:%d' % (f.file, lp.line)}
                     if hit[1]:
                         e['backing'] = hit[1]
+                    dg, hs = slices.digest(slices.loop_items(f, prog.crate(cn), sorted(lp.body)))
+                    e['slices'] = [dg]
+                    e['slice_items'] = hs
                     out.append(e)
     with open(os.path.join(HERE, 'loop_table.json'), 'w') as fh:
         json.dump({'entries': out}, fh, indent=0)
